@@ -107,7 +107,9 @@ def build_harness(pkg, tags="verif", module="harness"):
             f.write(txt)
         shutil.copyfile(os.path.join(moddir, "go.sum"), alt[:-4] + ".sum")
         extra = ["-modfile", alt]
-    p = sh(["go", "test", "-c", "-tags", tags] + extra + ["-o", out, "./" + pkg + "/"], cwd=moddir, env=go_env(), timeout=3600,
+    # -trimpath: object files do not embed source directories, so the Go build cache is shared between /repo and
+    # scratch worktrees (only packages whose sources differ are recompiled)
+    p = sh(["go", "test", "-c", "-trimpath", "-tags", tags] + extra + ["-o", out, "./" + pkg + "/"], cwd=moddir, env=go_env(), timeout=3600,
            check=False)
     if p.returncode != 0:
         raise Infra("harness build failed for %s:\n%s" % (pkg, p.stdout[-6000:]))
